@@ -135,7 +135,8 @@ Definition tick_inv (st : state) : Prop :=
 Lemma tick_fc_ok fc now : fc_inv fc ->
   exists fc', tick_fc fc now = Ok fc' /\ fc_inv fc' /\ map sview (fc_streams fc') = map sview (fc_streams fc).
 Proof.
-  intros [Hc [Hd Hs]]. unfold tick_fc. destruct (fc_paused fc); [exists fc; repeat split; auto|].
+  intros [Hc [Hd Hs]]. unfold tick_fc. destruct (fc_extracting fc); [exists fc; repeat split; auto|].
+  destruct (fc_paused fc); [exists fc; repeat split; auto|].
   set (all := match fc_collect fc with CNone => fc_all_len fc | _ => N.max (fc_all_len fc) now end).
   assert (Ha : fc_all_len fc <= all) by (unfold all; destruct (fc_collect fc); lia).
   rewrite Hd.
@@ -191,6 +192,7 @@ Proof.
   unfold tick. intros H. destruct (st_fc st) as [fc|] eqn:E; [|inversion H; subst; auto].
   destruct (tick_fc fc now) as [fc'| |] eqn:T; cbn [bind] in H; try discriminate. inversion H; subst. split; [|reflexivity].
   unfold abs. cbn. rewrite E. f_equal. unfold tick_fc in T.
+  destruct (fc_extracting fc); [inversion T; reflexivity|].
   destruct (fc_paused fc); [inversion T; reflexivity|].
   destruct (tick_streams _ _ _) as [l'| |] eqn:TS; cbn [bind] in T; try discriminate.
   pose proof (tick_streams_view _ _ _ _ TS) as M.
@@ -269,24 +271,33 @@ Proof.
   intros [Ic [Id Is]]. cbn. unfold fc_inv. cbn. repeat split; auto. apply Forall_filter. exact Is.
 Qed.
 
+Lemma extracted_props st n :
+  (tick_inv st -> tick_inv (extracted st n)) /\ abs (extracted st n) = abs st /\ st_next_id (extracted st n) = st_next_id st.
+Proof.
+  unfold extracted, tick_inv, abs. destruct (st_fc st) as [fc|] eqn:E; [|rewrite E; auto].
+  destruct (fc_extracting fc); [|rewrite E; auto]. cbn. split; [|auto]. intros [H1 [H2 H3]]. unfold fc_inv. cbn. auto.
+Qed.
+
 Lemma apply_tevents_ok evs : forall st, tick_inv st ->
   exists st', apply_tevents st evs = Ok st' /\ tick_inv st' /\
-              abs st' = fold_left spec_event (flat_map (fun e => match e with TDone id => [EvDone id] | TMsgs _ => [] end) evs) (abs st) /\
+              abs st' = fold_left spec_event (flat_map (fun e => match e with TDone id => [EvDone id] | _ => [] end) evs) (abs st) /\
               st_next_id st' = st_next_id st.
 Proof.
   induction evs as [|e r IH]; intros st I; cbn [apply_tevents flat_map fold_left]; [exists st; auto|].
-  destruct e as [now|id]; cbn [apply_tevent].
+  destruct e as [now|id|n]; cbn [apply_tevent].
   - destruct (tick_ok st now I) as [st1 [H1 [I1 [A1 N1]]]]. rewrite H1. cbn [bind app].
     destruct (IH st1 I1) as [st' [H2 [I2 [A2 N2]]]]. exists st'. rewrite H2, A2, A1, N2, N1. auto.
   - cbn [bind app fold_left].
     destruct (IH _ (apply_event_inv st (EvDone id) I)) as [st' [H2 [I2 [A2 N2]]]]. exists st'.
     rewrite H2, A2, apply_event_abs, N2. repeat split; auto.
     unfold apply_event. destruct (st_fc st); reflexivity.
+  - cbn [bind app]. destruct (extracted_props st n) as [P1 [P2 P3]].
+    destruct (IH _ (P1 I)) as [st' [H2 [I2 [A2 N2]]]]. exists st'. rewrite H2, A2, P2, N2, P3. auto.
 Qed.
 
 (* the history the dispatcher model sees *)
 Definition proj_item (i : titem) : item :=
-  {| i_pre := flat_map (fun e => match e with TDone id => [EvDone id] | TMsgs _ => [] end) (t_pre i);
+  {| i_pre := flat_map (fun e => match e with TDone id => [EvDone id] | _ => [] end) (t_pre i);
      i_frame := t_frame i; i_orc := t_orc i |}.
 
 Lemma run_loop_ok h : forall st, tick_inv st -> forallb (fun i => not_one_pass_open (t_orc i)) h = true ->
@@ -309,13 +320,14 @@ Qed.
 
 (* state consistency holds for every run of the loop that does not panic, one-pass or not *)
 Lemma apply_tevents_abs evs : forall st st', apply_tevents st evs = Ok st' ->
-  abs st' = fold_left spec_event (flat_map (fun e => match e with TDone id => [EvDone id] | TMsgs _ => [] end) evs) (abs st).
+  abs st' = fold_left spec_event (flat_map (fun e => match e with TDone id => [EvDone id] | _ => [] end) evs) (abs st).
 Proof.
   induction evs as [|e r IH]; intros st st' H; cbn [apply_tevents flat_map fold_left] in *; [inversion H; reflexivity|].
   destruct (apply_tevent st e) as [st1| |] eqn:H1; cbn [bind] in H; try discriminate.
-  rewrite (IH _ _ H). destruct e as [now|id]; cbn [apply_tevent] in H1; cbn [app fold_left].
+  rewrite (IH _ _ H). destruct e as [now|id|n]; cbn [apply_tevent] in H1; cbn [app fold_left].
   - destruct (tick_abs _ _ _ H1) as [A _]. rewrite A. reflexivity.
   - inversion H1 as [H1']. rewrite <- (apply_event_abs st (EvDone id)). reflexivity.
+  - inversion H1 as [H1']. destruct (extracted_props st n) as [_ [P2 _]]. rewrite P2. reflexivity.
 Qed.
 
 Lemma run_loop_abs h : forall st st' ws, run_loop st h = Ok (st', ws) -> abs st' = spec_run (abs st) (map proj_item h) ws.
